@@ -49,6 +49,24 @@ CHECKS = {
             'read-write selection, never a read-only one, first read-write SELECT gets what arrived unselected, RECENT counts agree, an EXAMINE-only probe never sees \\Recent.',
             'Trusted: as C01; which read-write session any_selected picks is read from the real run. The WeakSet/GC dependence was a genuine defect (D36, fixed).',
             'DESIGN.md section 6 C17'),
+    'C05': ('Lean 4 theorems over a model of ConnectionState.do_command / _run_state (gate, handlers, bad-command counter) + exhaustive small-scope and random differential correspondence',
+            'C05_gate, C05_state_only, C05_refused_noop, C05_select, C05_close, C05_logout are proved in Lean for every state and command (backend outcomes are universally quantified oracles). Tie: every sequence '
+            'of length 1 (full 50-command alphabet) and 2 (26-command core; thorough: 3) in three TLS/peer configurations plus state-directed and random sequences is run on a real IMAPServer and diffed with the '
+            'model per command (OK/NO/BAD/BYE classes) and at the end by state probes; refused commands are removed and the run repeated to show they had no effect.',
+            'Trusted: Lean kernel, axioms propext/Classical.choice/Quot.sound, the harness; backend outcomes of each concrete command are supplied by the fixture (which credentials/mailboxes exist).',
+            'DESIGN.md section 6 C05'),
+    'C09': ('Lean 4 theorems (soundness of authentication as an invariant over command sequences) + differential correspondence + credential fuzzing',
+            'C09_sound (authenticated as u only if an attempt presented credentials the backend accepted for u), C09_no_reauth, C09_logindisabled, C09_failed_keeps are proved in Lean for every command sequence. '
+            'Tie: the C05 machinery with an alphabet of every way to present credentials (LOGIN, PLAIN, LOGIN mech, authzid with/without admin role, cancel, malformed base64, unknown mechanism) in three TLS/peer '
+            'configurations, identity observed through LIST; random credential byte strings never authenticate; the ManageSieve listener is driven with failed/successful AUTHENTICATE sequences against the Sieve model.',
+            'Trusted: as C05. Credential verification (pysasl, password hashing) is an oracle: which credentials verify is known to the fixture, not modelled. TLS is a stub.',
+            'DESIGN.md section 6 C09'),
+    'C19': ('Lean 4 theorems (gate, well-formedness invariant, refinement to a name-to-bytes map with one active name, isolation) + exhaustive small-scope and random differential correspondence',
+            'C19_gate, C19_wf, C19_put_get, C19_put_frame, C19_list, C19_delete_active, C19_delete, C19_rename, C19_isolation are proved in Lean over the model of ManageSieveConnection.run, FilterState and the dict FilterSet. '
+            'Tie: every reply of a real ManageSieveServer (incl. LISTSCRIPTS order and active mark, script bytes) is diffed with the model on all command-kind sequences of length 2 (thorough 3) before and after '
+            'authentication and on random multi-connection two-user programs; an independent Python reference map and a before/after dump of all stores around unauthenticated script commands are the monitors.',
+            'Trusted: as C05. The sieve compiler is an oracle (CHECKSCRIPT).',
+            'DESIGN.md section 6 C19'),
 }
 
 NOT_YET = 'check not built yet in this round (see DESIGN.md section 10 for the build order); nothing is claimed'
